@@ -60,8 +60,10 @@ fn res<T: std::fmt::Debug>(r: gmsol_model::Result<T>) -> String {
     }
 }
 fn pool<P: Balance<Num = u128>>(r: gmsol_model::Result<&P>) -> String {
+    // a panic inside an accessor is data for that accessor (type-limit pool amounts), not the end of the view
+    let side = |f: &dyn Fn() -> gmsol_model::Result<u128>| guarded(f).map(res).unwrap_or_else(|()| "panic".to_string());
     match r {
-        Ok(p) => format!("{}|{}", res(p.long_amount()), res(p.short_amount())),
+        Ok(p) => format!("{}|{}", side(&|| p.long_amount()), side(&|| p.short_amount())),
         Err(_) => "Err".to_string(),
     }
 }
@@ -225,6 +227,16 @@ fn wild_market(rng: &mut Rng) -> sdk::Market {
     let mut m: sdk::Market = bytemuck::pod_read_unaligned(&bytes);
     // pools: the is_pure byte is a bool for the program (0/1), anything else is not a state the program writes
     for_each_pool(&mut m, |ps, rng| ps.pool.is_pure = rng.below(2) as u8, rng);
+    // type limits of the pool amounts, in pure and impure pools
+    for_each_pool(&mut m, |ps, rng| {
+        if rng.chance(1, 5) {
+            ps.pool.long_token_amount = limit_amount(rng);
+        }
+        if rng.chance(1, 5) {
+            ps.pool.short_token_amount = limit_amount(rng);
+        }
+    }, rng);
+    closed_market_cases(&mut m, rng);
     if rng.chance(1, 2) {
         m.virtual_inventory_for_swaps = Default::default();
     }
@@ -232,6 +244,36 @@ fn wild_market(rng: &mut Rng) -> sdk::Market {
         m.virtual_inventory_for_positions = Default::default();
     }
     m
+}
+
+fn limit_amount(rng: &mut Rng) -> u128 {
+    *rng.pick(&[u128::MAX, u128::MAX - 1, u128::MAX - 2, 1u128 << 127, (1u128 << 127) - 1, (1u128 << 127) + 1, u64::MAX as u128, 0, 1, 2, 3])
+}
+
+/// all four (closed, enable-closed-params) flag combinations, every closed-market parameter and its
+/// regular counterpart zero / non-zero independently
+fn closed_market_cases(m: &mut sdk::Market, rng: &mut Rng) {
+    let combo = rng.below(4);
+    m.flags.value = (m.flags.value & !(1 << 5)) | (((combo & 1) as u8) << 5);
+    let enable = (combo >> 1) & 1 == 1;
+    if enable {
+        m.config.flag.value |= 1 << 2;
+    } else {
+        m.config.flag.value &= !(1 << 2);
+    }
+    let c = &mut m.config;
+    for f in [
+        &mut c.market_closed_min_collateral_factor_for_liquidation, &mut c.min_collateral_factor_for_liquidation,
+        &mut c.market_closed_borrowing_fee_base_factor, &mut c.market_closed_borrowing_fee_above_optimal_usage_factor,
+        &mut c.borrowing_fee_base_factor_for_long, &mut c.borrowing_fee_base_factor_for_short,
+        &mut c.borrowing_fee_above_optimal_usage_factor_for_long, &mut c.borrowing_fee_above_optimal_usage_factor_for_short,
+    ] {
+        if rng.chance(1, 2) {
+            *f = 0;
+        } else if *f == 0 {
+            *f = 1 + rng.below(1_000_000) as u128;
+        }
+    }
 }
 
 fn for_each_pool(m: &mut sdk::Market, mut f: impl FnMut(&mut gmsol_programs::gmsol_store::types::PoolStorage, &mut Rng), rng: &mut Rng) {
@@ -309,6 +351,7 @@ fn plausible_market(rng: &mut Rng, now: i64) -> sdk::Market {
         m.state.pools.primary.pool.long_token_amount = 0;
         m.state.pools.primary.pool.short_token_amount = 0;
     }
+    closed_market_cases(&mut m, rng);
     m.state.clocks.price_impact_distribution = now - rng.below(5000) as i64;
     m.state.clocks.borrowing = now - rng.below(5000) as i64 + 100;
     m.state.clocks.funding = now - rng.below(5000) as i64;
@@ -584,8 +627,21 @@ fn discount(sink: &mut Sink, rng: &mut Rng) {
     let mut st: sdk::Store = bytemuck::pod_read_unaligned(&bytes);
     st.gt.max_rank = if wild && rng.chance(1, 2) { rng.below(40) } else { rng.below(16) };
     if !wild || rng.chance(1, 2) {
-        for f in st.gt.order_fee_discount_factors.iter_mut() { *f = UNIT * (rng.below(1001) as u128) / 1000; }
-        st.factor.order_fee_discount_for_referred_user = if rng.chance(1, 8) { UNIT + rng.below(5) as u128 } else { UNIT * (rng.below(1001) as u128) / 1000 };
+        // arbitrary factors: tiny, thirds, sevenths, near UNIT, above UNIT, fully random below UNIT, and round ones
+        let factor = |rng: &mut Rng| -> u128 {
+            match rng.below(10) {
+                0 => rng.below(4) as u128,
+                1 => UNIT / 3 + rng.below(3) as u128,
+                2 => UNIT / 7 * (1 + rng.below(6) as u128) + rng.below(2) as u128,
+                3 => UNIT - rng.below(4) as u128,
+                4 => UNIT + rng.below(3) as u128,
+                5 => UNIT * (rng.below(1001) as u128) / 1000,
+                6 => 10u128.pow(rng.below(21) as u32) + rng.below(2) as u128,
+                _ => rng.next128() % (UNIT + 1),
+            }
+        };
+        for f in st.gt.order_fee_discount_factors.iter_mut() { *f = factor(rng); }
+        st.factor.order_fee_discount_for_referred_user = factor(rng);
     }
     let ps: Box<prog::Store> = Box::new(bytemuck::pod_read_unaligned(bytemuck::bytes_of(&st)));
     for _ in 0..6 {
